@@ -148,6 +148,12 @@ class World(object):
         enc = pdu.encode(p)
         sx.check(len(p) == len(enc), "len-differs-from-encoding:" + p.name)
         members = [q for q in p] if p.name == "AGF" else [p]
+        for m in members:
+            # budgeting uses len(pdu): it must be the encoded length for
+            # every PDU handed out, not only for the frame as a whole
+            if m is not p:
+                sx.check(len(m) == len(pdu.encode(m)),
+                         "len-differs-from-encoding:" + desc(m))
         excepted = any(any(m is r for r in self.raw_pdus) for m in members)
         if p.name == "AGF":
             sx.reach("frame:AGF")
@@ -307,6 +313,22 @@ def apply_item(w, i, item):
         peer, w.peer = w.peer, w.peer + 1
         llc.dispatch(pdu.Connect(dsap=s.addr, ssap=peer))
         w.want(pdu.DisconnectedMode(peer, s.addr, 2))
+    elif kind == "CONNECT":
+        # active open: connect() queues the CONNECT PDU and then sleeps
+        rw = int(arg[2])
+        s = llc.socket(DLC)
+        llc.setsockopt(s, nfc.llcp.SO_RCVBUF, rw)
+        if "miu" in arg:
+            llc.setsockopt(s, nfc.llcp.SO_RCVMIU, 200)
+        dest = b"urn:nfc:sn:svc%d" % i if "sn" in arg else 16 + i
+        try:
+            llc.connect(s, dest)
+            sx.check(False, "setup:connect-did-not-wait")
+        except envl.WouldBlock:
+            pass
+        w.want(pdu.Connect(1 if "sn" in arg else dest, s.addr,
+                           200 if "miu" in arg else 128, rw,
+                           dest if "sn" in arg else None))
     elif kind == "DMsap0":
         # CONNECT addressed to SAP 0 (no socket can listen there): the DM sits
         # on the send list of the first access point collect() asks
@@ -345,15 +367,18 @@ def apply_item(w, i, item):
 ITEMS = [("UI", n) for n in UI_LENS] + [("I", n) for n in I_LENS] + [
     ("RR", 0), ("RNR", 0), ("RR1", 0), ("CC", 0), ("DISC", 0), ("DMsap", 0),
     ("DMsap0", 0), ("DMsdp", 0), ("SDRES", 1), ("SDRES", 2), ("SDRES", 33),
-    ("SDREQ", 14), ("SDREQ", 60), ("SDREQ", 125), ("RAWUI", 131)]
+    ("SDREQ", 14), ("SDREQ", 60), ("SDREQ", 125), ("RAWUI", 131),
+    ("CONNECT", "rw0"), ("CONNECT", "rw0+sn"), ("CONNECT", "rw1"),
+    ("CONNECT", "rw2+miu+sn")]
 # positions after the prefix draw from a smaller set
 TAILS = {
     "quick": [("UI", 60), ("UI", 125), ("I", 124), ("RR1", 0), ("RNR", 0),
               ("CC", 0), ("DMsap", 0), ("DMsdp", 0), ("SDRES", 1),
-              ("SDREQ", 14)],
+              ("SDREQ", 14), ("CONNECT", "rw0")],
     "thorough": [("UI", 60), ("UI", 125), ("I", 124), ("RR", 0), ("RR1", 0),
                  ("RNR", 0), ("CC", 0), ("DISC", 0), ("DMsap", 0),
-                 ("DMsdp", 0), ("SDRES", 1), ("SDREQ", 14)],
+                 ("DMsdp", 0), ("SDRES", 1), ("SDREQ", 14),
+                 ("CONNECT", "rw0"), ("CONNECT", "rw2+miu+sn")],
 }
 
 
@@ -393,6 +418,7 @@ def unit_budget(sx, p, miu_size, icv, label):
         return "none"
     sx.reach("unit:pdu")
     enc = pdu.encode(p)
+    sx.check(len(p) == len(enc), "len-differs-from-encoding:" + desc(p))
     size = info_len(enc) + (icv if p.name in ("UI", "I") else 0)
     # collect() only asks with a budget >= 0, and its aggregation budget keeps
     # one octet in reserve, so a PDU with an information field of one octet
@@ -448,6 +474,18 @@ def unit_tco(sx, kind):
             CC=pdu.ConnectionComplete(16, 32, 248, 2),
             DM=pdu.DisconnectedMode(16, 32, 1), DISC=pdu.Disconnect(16, 32),
             FRMR=pdu.FrameReject(16, 32, 1, 12))[q])
+        p = s.dequeue(miu_size, icv)
+    elif kind == "DLC-connect":
+        s = tco.DataLinkConnection(128, 1)
+        s.addr = 32
+        s.setsockopt(nfc.llcp.SO_RCVBUF, sx.pick("rw", [0, 1, 2, 15]))
+        if sx.pick("miu", [0, 1]):
+            s.setsockopt(nfc.llcp.SO_RCVMIU, 300)
+        dest = sx.pick("dest", [16, b"urn:nfc:sn:x"])
+        try:
+            s.connect(dest)
+        except envl.WouldBlock:
+            pass
         p = s.dequeue(miu_size, icv)
     elif kind == "DLC-busy":
         s = established(sx, "a", 32, 16)
@@ -513,7 +551,7 @@ def partitions(tier):
     for ns in name_sets:
         parts.append(dict(name="unit:sd:" + "+".join(map(str, ns)),
                           fn="unit_sd", params=dict(kmax=kmax, names=ns)))
-    for kind in ("LDL", "DLC-I", "DLC-ctl", "DLC-busy", "DLC-ack", "SAP-list",
+    for kind in ("LDL", "DLC-I", "DLC-ctl", "DLC-connect", "DLC-busy", "DLC-ack", "SAP-list",
                  "SAP-sock"):
         parts.append(dict(name="unit:tco:" + kind, fn="unit_tco",
                           params=dict(kind=kind)))
@@ -523,7 +561,7 @@ def partitions(tier):
 MUST_REACH = ["frame:AGF", "frame:single", "emsgsize", "drained", "unit:none",
               "unit:pdu"]
 BOUNDS = {
-    "quick": "collect(): scripts of 1..3 queue items (first from 23 item kinds/sizes: UI 1/60/125/131 octets, I 0/57/124/131 octets on an established connection, voluntary RR, necessary RR, RNR, CC, DISC, DM on a SAP send list (also SAP 0), DM in the discovery SAP, 1/2/33 SDRES, SDREQ with a 14/60/125 octet name, raw-socket UI; later items from 10 of them) built through the real socket API; send-miu symbolic over 128..2175, connection MIU of the I-carrying connection symbolic 128..2175, aggregation on (3 items) / off (2 items); every frame until the queues drain.  dequeue() units: budget symbolic over -4..2175, icv 0/4, 0..6 answers, 0..3 requests, every socket class and the SAP send list",
+    "quick": "collect(): scripts of 1..3 queue items (first from 27 item kinds/sizes: CONNECT queued by connect() with RW 0/1/2, with/without service name and MIU option, UI 1/60/125/131 octets, I 0/57/124/131 octets on an established connection, voluntary RR, necessary RR, RNR, CC, DISC, DM on a SAP send list (also SAP 0), DM in the discovery SAP, 1/2/33 SDRES, SDREQ with a 14/60/125 octet name, raw-socket UI; later items from 11 of them) built through the real socket API; send-miu symbolic over 128..2175, connection MIU of the I-carrying connection symbolic 128..2175, aggregation on (3 items) / off (2 items); every frame until the queues drain.  dequeue() units: budget symbolic over -4..2175, icv 0/4, 0..6 answers, 0..3 requests, every socket class and the SAP send list",
     "thorough": "as quick with scripts of up to 4 items (two fixed from 23 x 12, two picked from 12; 3 items when the second is a control PDU), up to 3 items without aggregation, and 0..40 pending answers / 7 request-name sets in the discovery unit",
 }
 OUTSIDE = ["encrypted links (llcp-sec, ICV accounting) in collect(); icv_size only in the dequeue() units",
